@@ -47,6 +47,16 @@ def _callee(t):
     return norm(fn)
 
 
+def _callee_fn(t):
+    """the callee as written (trait method path), not the impl it resolves to"""
+    f = t.get('func', {})
+    fn = f.get('fn') or f.get('fn_resolved')
+    if fn is None:
+        return None
+    from facts import norm
+    return norm(fn)
+
+
 def _shift_place(p, loff):
     q = {'l': p['l'] + loff, 'proj': []}
     for e in p['proj']:
@@ -503,7 +513,7 @@ def fuse_iterators(F):
             t = b.blocks[bi]['term']
             if t['k'] != 'call' or t.get('target') is None or t['dst']['proj'] or not t.get('args') or t.get('exp'):
                 continue
-            cons = FUSE_CONSUMERS.get(_callee(t))
+            cons = FUSE_CONSUMERS.get(_callee_fn(t))
             if cons is None:
                 continue
             if len(t['args']) != (3 if cons == 'fold' else 2):
@@ -520,7 +530,7 @@ def fuse_iterators(F):
                 if db is None:
                     break
                 at = b.blocks[db]['term']
-                kind = FUSE_ADAPTORS.get(_callee(at))
+                kind = FUSE_ADAPTORS.get(_callee_fn(at))
                 if kind is None or len(at['args']) != 2 or at.get('exp'):
                     break
                 acl = _closure_of(F, b, at['args'][1])
@@ -722,20 +732,53 @@ def splice_local_closure_calls(F):
     return done
 
 
+def _two_variant(ty):
+    return bool(re.match(r'^&*(?:mut )?(?:std|core)::(?:result::Result|option::Option|ops::ControlFlow)<', ty or ''))
+
+
 def thread_jumps(b, rounds=4):
-    """Exact jump threading with duplication: a block that has just given a local a known constant / enum variant and then
-    runs - through gotos and statement-only blocks - into a `switchInt` on that value (or on its discriminant) goes
-    straight to the target the switch would pick; the statements on the way are copied.  Removes the infeasible paths
-    that splicing creates ("the closure returned Err" -> "the caller's test of the result says Ok")."""
+    """Exact jump threading with duplication: a block that knows the constant / enum variant of a local - because it has just
+    assigned it, or because it is entered only through the switch edge that tested it - and then runs, through gotos,
+    statement-only blocks and `Try::branch`, into a `switchInt` on that value (or on its discriminant) goes straight to the
+    target the switch would pick; the statements (and the `Try::branch` calls) on the way are copied.  Removes the infeasible
+    paths that splicing creates ("the closure returned Err" -> "the caller's test of the result says Ok")."""
     changed_any = False
     for _ in range(rounds):
         changed = False
+        preds = {}
+        for i, blk in enumerate(b.blocks):
+            t = blk['term']
+            succs = []
+            if t['k'] == 'switch':
+                succs = [(tb, tv) for tv, tb in t['targets']] + [(t['otherwise'], 'otherwise')]
+            elif isinstance(t.get('target'), int):
+                succs = [(t['target'], None)]
+            for tb, lab in succs:
+                preds.setdefault(tb, []).append((i, lab))
         for bi in range(len(b.blocks)):
             blk = b.blocks[bi]
             t = blk['term']
             if t['k'] not in ('goto', 'drop') or t.get('threaded') or t.get('target') is None:
                 continue
             known = {}
+            # what the only way into this block has established
+            ps = preds.get(bi, [])
+            if len(ps) == 1 and ps[0][1] is not None:
+                P, lab = ps[0]
+                pt = b.blocks[P]['term']
+                if pt['k'] == 'switch' and pt['on']['k'] != 'const' and not pt['on']['p']['proj']:
+                    D = pt['on']['p']['l']
+                    val = lab
+                    if lab == 'otherwise':
+                        listed = [tv for tv, _ in pt['targets']]
+                        val = 1 if listed == [0] else 0 if listed == [1] else None
+                    src = [st for st in b.blocks[P]['stmts'] if st['dst']['l'] == D and not st['dst']['proj']]
+                    if val is not None and len(src) == 1 and src[0]['rv']['k'] == 'discr' and not src[0]['rv']['p']['proj']:
+                        X = src[0]['rv']['p']['l']
+                        if lab != 'otherwise' or _two_variant(b.locals[X]['ty']):
+                            known[X] = ('variant', val)
+                    elif val is not None and lab != 'otherwise' and b.locals[D]['ty'] == 'bool':
+                        known[D] = ('const', val)
 
             def absorb(st):
                 d = st['dst']
@@ -766,17 +809,32 @@ def thread_jumps(b, rounds=4):
                 absorb(st)
             if not known:
                 continue
-            cur, copied, hops, resolved = t['target'], [], 0, None
-            while hops < 8 and cur is not None and cur != bi:
+            cur, hops, resolved = t['target'], 0, None
+            segs = [{'stmts': [], 'term': None}]
+            while hops < 10 and cur is not None and cur != bi:
                 hops += 1
                 cb = b.blocks[cur]
                 for st in cb['stmts']:
                     absorb(st)
-                    copied.append(st)
+                    segs[-1]['stmts'].append(dict(st))
                 ct = cb['term']
                 if ct['k'] == 'goto':
                     cur = ct['target']
                     continue
+                if ct['k'] == 'call' and ct.get('target') is not None and ct.get('args') and not ct['dst']['proj'] and \
+                        ((_callee(ct) or '').endswith('Try::branch') or 'Try>::branch' in (_callee(ct) or '')):
+                    a0 = ct['args'][0]
+                    kv = known.get(a0['p']['l']) if a0['k'] != 'const' and not a0['p']['proj'] else None
+                    aty = b.locals[a0['p']['l']]['ty'] if kv else ''
+                    if kv and kv[0] == 'variant' and re.match(r'^(?:std|core)::(?:result::Result|option::Option)<', aty):
+                        is_res = 'result::Result<' in aty
+                        cont = (kv[1] == 0) if is_res else (kv[1] == 1)
+                        known[ct['dst']['l']] = ('variant', 0 if cont else 1)
+                        segs[-1]['term'] = dict(ct, threaded=True)        # target patched below
+                        segs.append({'stmts': [], 'term': None})
+                        cur = ct['target']
+                        continue
+                    break
                 if ct['k'] == 'switch' and ct['on']['k'] != 'const' and not ct['on']['p']['proj']:
                     kv = known.get(ct['on']['p']['l'])
                     if kv and kv[0] == 'const':
@@ -786,13 +844,16 @@ def thread_jumps(b, rounds=4):
                             if tv == v:
                                 resolved = tb
                 break
-            if resolved is None or hops <= 0:
+            if resolved is None:
                 continue
-            if b.blocks[t['target']]['term']['k'] == 'switch' and not b.blocks[t['target']]['stmts'] and False:
-                continue
-            b.blocks.append({'stmts': [dict(st) for st in copied], 'cleanup': False,
-                             'term': {'k': 'goto', 'target': resolved, 'line': t.get('line'), 'col': t.get('col'), 'exp': False, 'threaded': True}})
-            blk['term'] = dict(t, target=len(b.blocks) - 1, threaded=True)
+            base = len(b.blocks)
+            for i, sg in enumerate(segs):
+                if sg['term'] is None:
+                    sg['term'] = {'k': 'goto', 'target': resolved, 'line': t.get('line'), 'col': t.get('col'), 'exp': False, 'threaded': True}
+                else:
+                    sg['term'] = dict(sg['term'], target=base + i + 1)
+                b.blocks.append({'stmts': sg['stmts'], 'cleanup': False, 'term': sg['term']})
+            blk['term'] = dict(t, target=base, threaded=True)
             changed = changed_any = True
         if not changed:
             break
